@@ -52,6 +52,10 @@ type RaceCase struct {
 	// scheduled when nothing else can run, so the producers' calls and the
 	// callbacks they start fall into the starting phase
 	HoldServe bool `json:"hold_serve,omitempty"`
+	// FailStart: an event listener is declared for a pattern without
+	// handler, so that every Serve call is refused at validation while the
+	// producers call into the service
+	FailStart bool `json:"fail_start,omitempty"`
 	// Overlap: the next epoch is served by another goroutine as soon as
 	// Shutdown returned, whether or not the previous Serve call has
 	Overlap bool `json:"overlap,omitempty"`
@@ -77,6 +81,7 @@ func (RaceScenario) GenCase(r *rand.Rand, prop string) interface{} {
 	}
 	c.StdLog = chance(r, 30)
 	c.HoldServe = chance(r, 30)
+	c.FailStart = chance(r, 8)
 	for _, p := range optionalPoints {
 		if chance(r, 60) {
 			c.Optional = append(c.Optional, p)
@@ -295,6 +300,9 @@ func (RaceScenario) Execute(sim *sched.Sim, ci interface{}, prop string, race bo
 			panic("listener: empty event")
 		}
 	})
+	if c.FailStart {
+		svc.AddListener("ghost.$id", func(ev *res.Event) {})
+	}
 	// a group built from a path parameter (slots 9..12)
 	svc.Handle("tag.$id", res.Group("tg.${id}"),
 		res.GetModel(func(r res.ModelRequest) {
@@ -380,7 +388,7 @@ func (RaceScenario) Execute(sim *sched.Sim, ci interface{}, prop string, race bo
 	}
 	life := sim.Go("life", func() {
 		for i := 0; i < c.Epochs; i++ {
-			for try := 0; try < 30; try++ {
+			for try := 0; try < 30 && !(c.FailStart && try > 1); try++ {
 				sim.Yield("life.wait", strconv.Itoa(i))
 				err := svc.Shutdown()
 				sim.Yield("call.return", "shutdown")
